@@ -382,6 +382,10 @@ class InterpCore:
             if name in f.local_names and name not in f.nonlocals:
                 raise mk_exc(UnboundLocalError, name, where=fr.where())
             f = f.parent
+        if name.startswith("lib_") and fr.spec:
+            import importlib
+
+            return importlib.import_module(name[4:])
         mod = fr.module
         while mod is None and fr.parent is not None:
             fr = fr.parent
